@@ -56,6 +56,9 @@ def gen(rng, flavor):
             if rng.random() < 0.3:
                 p.insert(rng.randint(0, len(p)), (rng.choice([0, 16]), 'F'))
         prog.append(('s', t, kind, p))
+        if flavor == 'c07' and rng.random() < 0.3:
+            # `buffer(x); await buffer.wait()` by one task in one loop step
+            prog.append(('w', t, 100 + i, rng.random() < 0.6))
     # inputs of one instant: submissions first, then waits (the doctest pattern `buffer(a); buffer(b);
     # await buffer.wait()`); a wait() runs in its own task, so a same-instant wait-then-submit is an
     # ordering between tasks, which the model does not predict
@@ -144,26 +147,48 @@ def run_real(T, prog, outcomes, shutdown_at=None, make_buffer=None):
         async def waiter(i, c):
             await buf.wait(cancel=c)
             out.append(('wait-ret', now(), i))
+        def submit(st):
+            kind, p = st[2], st[3]
+            if kind == 'put':
+                buf(p[0][1])
+            elif kind == 'await':
+                buf.await_(aw(p))
+            elif kind == 'amap':
+                buf.amap(agen(p))
+            elif kind == 'map':
+                buf.map([x for _, x in p])
+            else:
+                buf.map(it(p))
+
+        async def client(group):
+            """The inputs of one instant, issued by ONE task without yielding in between (the doctest
+            pattern `buffer(a); buffer(b); await buffer.wait()`): submissions, then the first wait inline."""
+            for st in group:
+                if st[0] == 's':
+                    submit(st)
+            ws = [st for st in group if st[0] == 'w']
+            for st in ws[1:]:
+                tasks.append((st[2], asyncio.create_task(waiter(st[2], st[3]))))
+            if ws:
+                await waiter(ws[0][2], ws[0][3])
+        groups = []
         for st in prog:
             if shutdown_at is not None and st[1] >= shutdown_at:
                 break
-            dt = st[1] * TICK - loop.time()
+            if groups and groups[-1][0][1] == st[1]:
+                groups[-1].append(st)
+            else:
+                groups.append([st])
+        for group in groups:
+            dt = group[0][1] * TICK - loop.time()
             if dt > 0:
                 await asyncio.sleep(dt)
-            if st[0] == 'w':
-                tasks.append((st[2], asyncio.create_task(waiter(st[2], st[3]))))
+            ws = [st for st in group if st[0] == 'w']
+            if ws:
+                tasks.append((ws[0][2], asyncio.create_task(client(group))))
             else:
-                kind, p = st[2], st[3]
-                if kind == 'put':
-                    buf(p[0][1])
-                elif kind == 'await':
-                    buf.await_(aw(p))
-                elif kind == 'amap':
-                    buf.amap(agen(p))
-                elif kind == 'map':
-                    buf.map([x for _, x in p])
-                else:
-                    buf.map(it(p))
+                for st in group:
+                    submit(st)
         if shutdown_at is not None:
             dt = shutdown_at * TICK - loop.time()
             if dt > 0:
@@ -212,8 +237,20 @@ def canon(evs):
 def project(evs, prop):
     c = canon(evs)
     if prop == 'C03':
-        # which sets reached the function and how each call ended (not when)
-        return [(e[0], e[2]) for e in c if e[0] in ('start', 'end')]
+        # conservation only: how often each element reached a successful call, what ever reached the function,
+        # and whether a failed call was followed by a superset (grouping and timing belong to C07 / C08)
+        calls = []
+        cur = None
+        for e in c:
+            if e[0] == 'start':
+                cur = e
+            elif e[0] == 'end' and cur is not None:
+                calls.append((tuple(cur[2]), e[2]))
+                cur = None
+        ok = sorted(x for args, good in calls if good for x in args)
+        seen = sorted({x for args, _ in calls for x in args})
+        kept = all(set(a[0]) <= set(b[0]) for a, b in zip(calls, calls[1:]) if not a[1])
+        return (ok, seen, kept)
     if prop == 'C07':
         return c                                       # wait returns are judged against call ends: everything
     if prop == 'C08':
